@@ -42,4 +42,5 @@ Sound == (HoldsI(op, v, p) /\ mn <= v /\ v <= mx) => MightI
 Tight == (mn <= mx /\ MightI) =>
             \/ HoldsI(op, mn, p) \/ HoldsI(op, mx, p)
             \/ (mn <= p /\ p <= mx /\ HoldsI(op, p, p))
+SoundAndTight == Sound /\ Tight
 =============================================================================
